@@ -40,7 +40,8 @@ if [ -n "$dups" ]; then
     rc=1
 fi
 # 2. b is identical to c and d when it is hashed, so it belongs to their group
-if grep -q "/t/c" "$T/r2.txt" && ! grep -q "/t/b" "$T/r2.txt"; then
+# (since D148 a replaced path is left out WITH a warning, like a file whose length changed: that is accepted here)
+if grep -q "/t/c" "$T/r2.txt" && ! grep -q "/t/b" "$T/r2.txt" && ! grep -q "t/b was replaced by another file" "$T/err.txt"; then
     echo "DEFECT: -H hashed t/b (now identical to t/c and t/d) but left it out of their group, no warning:"
     grep -v info "$T/err.txt"
     rc=1
